@@ -10,12 +10,15 @@ import (
 )
 
 // C03 — spec validation enforces exactly the documented extra rules.
-type c03 struct{ base }
+type c03 struct {
+	base
+	session *sut.SpecSession
+}
 
 func init() {
-	lib.Register(&c03{base{
+	lib.Register(&c03{base: base{
 		id: "C03", level: "exploration",
-		technique: "runtime generator-as-oracle monitor: specifications valid by construction must validate without error and the same specification with exactly one rule-breaking edit must produce at least one error, in all four option configurations (continue-on-errors x strict path uniqueness); the real SpecValidator runs on every document",
+		technique: "runtime generator-as-oracle monitor: specifications valid by construction must validate without error and the same specification with exactly one rule-breaking edit must produce at least one error, in all four option configurations (continue-on-errors x strict path uniqueness), both with a fresh SpecValidator and with one validator object per configuration that is reused for every document of the worker (its outcome must equal the fresh one); one third of the documents contain no $ref at all",
 		rule: "documents come from a seeded grammar (paths with 0-2 placeholders incl. two per segment, 1-2 operations per path, parameters of every location inline and via #/parameters, responses inline and via #/responses with headers and examples, definitions with allOf inheritance, $ref, additionalProperties, nested arrays); one case = one clean document or one document with one of 29 single faults, validated under 4 configurations; distinct = FNV-64 of the document text; non-trivial = a fault was applied, or the clean document has >=2 operations or inheritance",
 		assumptions: []string{
 			"the generator is the oracle: a clean document breaks no documented rule and a faulted one breaks exactly the named rule (message classes are recorded as evidence, not matched)",
@@ -33,7 +36,10 @@ func (p *c03) Chunk(tier string) int { return 15 }
 var specConfigs = []sut.SpecOpts{{Continue: false, Strict: true}, {Continue: true, Strict: true}, {Continue: false, Strict: false}, {Continue: true, Strict: false}}
 
 func (p *c03) Run(w *lib.Worker, idx int, r *lib.Rand) lib.Case {
-	g := &gen.SpecGen{R: r, Tag: fmt.Sprintf("x%d", idx)}
+	if p.session == nil {
+		p.session = sut.NewSpecSession()
+	}
+	g := &gen.SpecGen{R: r, Tag: fmt.Sprintf("x%d", idx), NoRefs: idx%3 == 1}
 	doc := g.Clean()
 	fault := ""
 	strictOnly := false
@@ -59,6 +65,10 @@ func (p *c03) Run(w *lib.Worker, idx int, r *lib.Rand) lib.Case {
 			c.Sample = sample
 			return c
 		}
+		if o.Panic != "" && cfg.Continue && sut.IsDocumentedSchemaPanic(o.Panic) && docHasUnresolvableRef(text) {
+			c.Tags = append(c.Tags, "skipped:known-C07-panic") // recorded under C07; not a matter of this property
+			return c
+		}
 		if o.Panic != "" {
 			c.Viol = &lib.Violation{What: "panic validating a generated specification: " + o.Panic, Detail: sample}
 			return c
@@ -72,9 +82,22 @@ func (p *c03) Run(w *lib.Worker, idx int, r *lib.Rand) lib.Case {
 			c.Viol = &lib.Violation{What: fmt.Sprintf("every documented rule holds (fault=%q, %+v) but errors are reported: %v doc=%s", fault, cfg, o.Errors, text), Detail: sample}
 			return c
 		}
-		if len(o.Errors) > 0 {
-			c.Tags = append(c.Tags, "msgclass:"+msgClass(o.Errors[0]))
+		// the same document through a validator object which has validated other documents before
+		if !cfg.Strict {
+			continue // reused validators for the two strict configurations only (cost)
 		}
+		ro := p.session.Validate(text, cfg)
+		c.Evals++
+		if ro.Panic != "" {
+			c.Viol = &lib.Violation{What: "panic in a reused SpecValidator: " + ro.Panic, Detail: sample}
+			return c
+		}
+		if ro.Key() != o.Key() {
+			sample["reused_validator_outcome"] = ro
+			c.Viol = &lib.Violation{What: fmt.Sprintf("a SpecValidator which validated other documents before gives another outcome than a fresh one (fault=%q, %+v): fresh errors=%v reused errors=%v doc=%s", fault, cfg, o.Errors, ro.Errors, text), Detail: sample}
+			return c
+		}
+		c.Tags = append(c.Tags, boolTag("no-refs-document", g.NoRefs))
 		if idx%100 == 0 && cfg.Continue && cfg.Strict {
 			c.Sample = sample
 		}
